@@ -35,6 +35,8 @@ def insert_zeros(rng, prog):
     for st in body[len(new):]:
         its = st[2] if st[0] == "seq" else st[3] if st[0] == "strand" else None
         if its is None: continue
+        if st[0] == "strand" and st[2] == "zwild":     # a strand that is one wildcard region: its only sized member is now empty
+            its.insert(rng.choice([0, len(its)]), ["ref", znames[0][1], rng.random() < 0.5]); touched += 1; how.append("wild-only"); continue
         if st[0] == "seq" and len(its) == 1 and its[0][0] == "nuc": continue      # a base sequence
         if st[0] == "strand" and st[2] in domain_strands: continue
         if st[0] == "seq" and has_domain: continue    # a super-sequence may reach a domain-level structure through domains()
@@ -144,6 +146,10 @@ def run(tier, seed, build):
     cases = []
     for i in range(n):
         prog = pepper.CompGen(rng, name="prog", allow_zero=False).build()
+        if i % 5 == 2:      # a strand that is nothing but a wildcard region, in a structure of its own
+            L = rng.choice([3, 4, 6])
+            prog["body"].append(["strand", False, "zwild", [["nuc", [["?", rng.choice("NSW")]]]], ["Some", L]])
+            prog["body"].append(["struct", 1, "zwildX", ["zwild"], False, ["ext", [[L, "."]]]])
         p2, how, touched = insert_zeros(rng, prog)
         cases.append({"prog": prog, "prog2": p2, "how": how, "touched": touched,
                       "base": pepper.comp_text(rng, prog), "zero": pepper.comp_text(rng, p2), "seed": rng.randrange(10**9)})
